@@ -171,3 +171,5 @@ func vMarshalRoundTrip(v interface{}, out interface{}) bool
 
 func vDigestHashIs(k int, h crypto.Hash) bool
 func vDigestCanonIs(k int, c dsig.Canonicalizer) bool
+
+func vScreenRejections() int
